@@ -35,7 +35,7 @@ pub struct GaussCase {
 fn gauss_strategy() -> BoxedStrategy<GaussCase> {
     let combo = 0u8..3;
     let mean = (-10.0f64..10.0, -10.0f64..10.0);
-    let lam1 = prop_oneof![Just(1.0f64), 0.01f64..100.0];
+    let lam1 = prop_oneof![4 => Just(1.0f64), 4 => 0.01f64..100.0, 1 => Just(1e-4f64), 1 => Just(1e-8f64), 1 => Just(1e6f64)];
     let cond = prop_oneof![2 => Just(1.0f64), 3 => 1.0f64..10.0, 2 => 10.0f64..100.0, 1 => 100.0f64..1e4];
     let theta = prop_oneof![Just(0.0f64), 0.0f64..PI];
     let pt = (-10.0f64..10.0, -10.0f64..10.0);
@@ -488,6 +488,52 @@ where
         let o: Vec<f64> = p3.sample(&ft).iter().map(|x| f(*x)).collect();
         ensure!(o != first, "iso-seed-ignored", "seeds {} and {} give the same first draw", c.seed, c.seed2);
     }
+    // ---- `std` is a public field: after it is reassigned, logp must describe what sample() draws
+    {
+        let std2 = rd(std * 3.5);
+        let mut q = IsotropicGaussian::<T>::new(t(std)).set_seed(c.seed2);
+        q.std = t(std2);
+        let from: Vec<f64> = (0..d).map(|_| rd(rng.normal())).collect();
+        let to: Vec<f64> = from.iter().map(|x| rd(x + std2 * rng.normal())).collect();
+        let ft: Vec<T> = from.iter().map(|x| t(*x)).collect();
+        let tt: Vec<T> = to.iter().map(|x| t(*x)).collect();
+        let lp = f(q.logp(&ft, &tt));
+        let quad: f64 = from.iter().zip(&to).map(|(a, b)| (b - a) * (b - a)).sum::<f64>() / (2.0 * std2 * std2);
+        let want = -quad - 0.5 * d as f64 * (2.0 * PI * std2 * std2).ln();
+        let cancel: f64 = from.iter().zip(&to).map(|(a, b)| 4.0 * eps * (a.abs() + b.abs()) * (b - a).abs() / (2.0 * std2 * std2)).sum();
+        let tol = 20.0 * eps * (quad + d as f64 * (1.0 + (2.0 * PI * std2 * std2).ln().abs())) + cancel;
+        ensure!(
+            (lp - want).abs() <= tol,
+            "iso-logp-stale-after-std-change",
+            "after `proposal.std = {std2}` (constructed with {std}) logp(from,to) in dim {d} = {lp}, normalised log-density of N(from, std^2 I) = {want}"
+        );
+        // sample() follows the new std too
+        let mut s2 = 0.0f64;
+        let mut cnt = 0.0f64;
+        for _ in 0..(2000 / d).max(100) {
+            for (x, m) in q.sample(&ft).iter().zip(&from) {
+                let z = (f(*x) - m) / std2;
+                s2 += z * z;
+                cnt += 1.0;
+            }
+        }
+        let zv = (s2 / cnt - 1.0) / (2.0 / cnt).sqrt();
+        ensure!(zv.abs() <= 6.5, "iso-sample-variance", "after `std` was reassigned, (sample - from)/std has second moment {} (z = {zv:.2})", s2 / cnt);
+    }
+    // ---- set_seed rewinds the stream, also when called again with the seed already in effect
+    {
+        let mut p = IsotropicGaussian::<T>::new(t(std)).set_seed(c.seed);
+        let from: Vec<T> = (0..d).map(|_| t(0.0)).collect();
+        let a1: Vec<u64> = p.sample(&from).iter().map(|x| f(*x).to_bits()).collect();
+        let _ = p.sample(&from);
+        p = p.set_seed(c.seed);
+        let a2: Vec<u64> = p.sample(&from).iter().map(|x| f(*x).to_bits()).collect();
+        ensure!(a1 == a2, "iso-seed-reproducible", "set_seed({}) followed by draws and set_seed({}) again does not replay the stream", c.seed, c.seed);
+        let q = p.clone().set_seed(c.seed);
+        let mut q = q;
+        let a3: Vec<u64> = q.sample(&from).iter().map(|x| f(*x).to_bits()).collect();
+        ensure!(a1 == a3, "iso-seed-reproducible", "a clone taken mid-stream and re-seeded with {} does not replay the stream", c.seed);
+    }
     // ---- as a Target: -0.5 |x|^2 / std^2 ----
     let x: Vec<f64> = (0..d).map(|_| rd(std * 2.0 * rng.normal())).collect();
     let xt: Vec<T> = x.iter().map(|v| t(*v)).collect();
@@ -513,7 +559,7 @@ pub fn run(ctx: &mut Ctx) {
     ctx.rule = "means, SPD covariances built from eigenvalues/rotation (cond <= 1e4, skipped when cond*eps > 2e-3), points within 10 sd, batches 1..64, std in (1e-3,1e3), dims 1..32, (T,backend) in {(f32,f32),(f64,f64),(f64,f32)}; non-trivial = correlated covariance / std != 1 or dim >= 2 / any Rosenbrock case; distinct by case fingerprint".into();
     ctx.assume("tolerances are multiples (20..60) of eps*cond*magnitude of the intermediate terms; observed maxima recorded in evidence");
     let t = ctx.tier;
-    ctx.section("gaussian2d", "Gaussian2D logp/unnorm_logp and DiffableGaussian2D (constants, batched, single, gradient) vs closed form", t.pick(3000, 300_000), 16, gauss_strategy, check_gauss);
-    ctx.section("rosenbrock", "Rosenbrock2D batch/single/gradient and RosenbrockND batch/gradient vs definition", t.pick(1500, 150_000), 16, rosen_strategy, check_rosen);
-    ctx.section("isotropic", "IsotropicGaussian logp = normalised N(from, std^2 I) density (closed form, symmetry, quadrature), sample moments, set_seed reproducibility", t.pick(1500, 150_000), 16, iso_strategy, check_iso);
+    ctx.section("gaussian2d", "Gaussian2D logp/unnorm_logp and DiffableGaussian2D (constants, batched, single, gradient) vs closed form", t.pick(60_000, 2_000_000), 16, gauss_strategy, check_gauss);
+    ctx.section("rosenbrock", "Rosenbrock2D batch/single/gradient and RosenbrockND batch/gradient vs definition", t.pick(30_000, 1_000_000), 16, rosen_strategy, check_rosen);
+    ctx.section("isotropic", "IsotropicGaussian logp = normalised N(from, std^2 I) density (closed form, symmetry, quadrature), sample moments, set_seed reproducibility", t.pick(20_000, 600_000), 16, iso_strategy, check_iso);
 }
